@@ -75,6 +75,20 @@ func VH_C18_query() {
 	case "query":
 		vx.Assert(c.Query(qname, defs...) == want, "C18: Query returns the value when present and non-empty, else the default or \"\"")
 		vx.Assert(c.Param("p") == v && c.Param("absent") == "", "C18: Param returns the bind value, \"\" when absent")
+		// a middleware rewrites the query (strips a token, adds a page): every call reads the request as it is then
+		present2 := vx.Bool()
+		raw2 := "other=2"
+		want2 := ""
+		if present2 {
+			raw2 = url.QueryEscape(qname) + "=zz&other=2"
+			want2 = "zz"
+		} else if hasDef {
+			want2 = def
+		}
+		c.Request().URL.RawQuery = raw2
+		vx.Assert(c.Query(qname, defs...) == want2, "C18: Query reads the request as it is at the time of the call")
+		got2 := c.QueryStrings(qname)
+		vx.Assert((present2 && len(got2) == 1 && got2[0] == "zz") || (!present2 && len(got2) == 0), "C18: QueryStrings reads the request as it is at the time of the call")
 	case "trim":
 		vx.Assert(c.QueryTrim(qname, defs...) == strings.TrimSpace(want), "C18: QueryTrim is Query with surrounding blanks removed")
 	case "unescape":
